@@ -13,10 +13,11 @@
                    [em,f,NA,NB,F] the same with two NEW block objects that only carry those names; F = 1 iff the sub-grid fits.
                    Both grids are printed after every step, joined by [#].
     Result: the observations after each printed step joined by [|]; a step that raises
-    prints [E:<exception>] and ends the case. *)
+    prints [E:<exception>] and ends the case.  In the full-dump modes [F]/[D] an observation ends in [!] when the
+    (main) grid is NOT consistent: the verdict of [inv_b], which decides the invariant [Inv] (InvDec.v). *)
 From Coq Require Import Ascii String List Bool PArith NArith FMapPositive.
 From PTBase Require Import Exn PyStr PyNum PyVal Wire.
-From P Require Import Assoc GridEdit.
+From P Require Import Assoc GridEdit InvDec.
 Import ListNotations.
 Open Scope list_scope.
 
@@ -186,7 +187,7 @@ Fixpoint exec (dual hash : bool) (g : grid) (o : view) (cs : list cmd) (skip : n
           match skip with
           | S k => exec dual hash g1 o1 r k
           | O => let d := if dual then observe g1 ++ s2l "#" ++ observe (with_view g1 o1) else observe g1 in
-                 (if hash then show_adler d else d) :: exec dual hash g1 o1 r O
+                 (if hash then show_adler d else if inv_b g1 then d else d ++ s2l "!") :: exec dual hash g1 o1 r O
           end
       end
   end.
